@@ -55,6 +55,10 @@ VARIANTS = [
     ("C04", "conjugate sign in the inner product", S, r"v_i_conj_2 = -V2\[:, i : i \+ 1\]\.T", "v_i_conj_2 = V2[:, i : i + 1].T", "F"),
     ("C04", "restart carry dropped", S, r"x0_0, x0_1, x0_2, x0_3 = xm_0, xm_1, xm_2, xm_3", "pass", "F"),
     ("C04", "flag fix reverted", S, r'info\["converged"\] = bool\(r_true < self\.tol\)', "pass", "F"),
+    ("C04", "lucky-breakdown test through np.isclose (default tolerances)", S, r"if abs\(H0\[j \+ 1, j\]\) \+ ninf == ninf:",
+     "if np.isclose(abs(H0[j + 1, j]) + ninf, ninf):", "F"),
+    ("C04", "lucky-breakdown test through np.isclose with zero tolerances (exact, equivalent)", S, r"if abs\(H0\[j \+ 1, j\]\) \+ ninf == ninf:",
+     "if np.isclose(abs(H0[j + 1, j]) + ninf, ninf, rtol=0, atol=0):", "S"),
     # ---- C05 / C06 / C11 / C12
     ("C05", "stride", QSVD, r"s_quat\.append\(s\[4 \* i\]\)\n\n    # Convert to numpy array\n    s_quat = np\.array\(s_quat\)\n\n    # Truncate",
      "s_quat.append(s[i])\n\n    # Convert to numpy array\n    s_quat = np.array(s_quat)\n\n    # Truncate", "F"),
